@@ -37,6 +37,24 @@ def gen_cases(tier, rng):
                 w = keyw + more + [flagw, pv]
                 cases.append('H:f=0 arg:v,values:%s:multi arg:f,flag:b0:init=0 arg:-:%s: %s exp:b0=1;%s=%s;%s=%s'
                              % (vk, pk, A.argv_tok(w), pk, pexp, vk, show))
+    # a flag whose cardinality limit was removed may be repeated: it stays set, in every spelling
+    for w in (['-v', '-v'], ['-vv'], ['-v', '--verbose'], ['-vcvc'], ['-v', '-c', '-v', '-v'], ['--verbose', '--verb', '-v', '-v']):
+        nv = sum(x.count('v') if not x.startswith('--') else 1 for x in w)
+        nc = sum(x.count('c') for x in w if not x.startswith('--'))
+        for init in (0, 1):
+            cases.append('H:f=0 arg:v,verbose:b0:init=%d/card=none arg:c:b1:init=%d/card=none arg:x:b2: %s exp:b0=%d;b1=%d;b2=1'
+                         % (init, init, A.argv_tok(w), 1 - init, (1 - init) if nc else init))
+    # integer destinations of every width: the whole range of the type is representable (outside the model, which
+    # has the one integer kind int: judged by the intended values)
+    for slot, vals in (('ul0', ['0', '9223372036854775807', '9223372036854775808', '18446744073709551615', '12345678901234567890']),
+                       ('ll0', ['-9223372036854775808', '9223372036854775807', '-1', '4294967296']),
+                       ('uh0', ['0', '65535', '32768']), ('h0', ['-32768', '32767', '-1']),
+                       ('u0', ['4294967295', '2147483648', '0'])):
+        for v in vals:
+            for w in (['-n', v], ['--number=' + v], ['--num', v], ['-n' + v]):
+                if v.startswith('-') and w[0] in ('-n', '--num'):
+                    continue          # a separate word with a leading dash is not a value
+                cases.append('H:f=0 arg:n,number:%s: arg:f:b0:init=0 %s exp:b0=0;%s=%s' % (slot, A.argv_tok(w), slot, v))
     guard = 0
     while len(cases) < n and guard < n * 30:
         guard += 1
